@@ -80,8 +80,7 @@ Definition crow_eqb (a b : crow) : bool :=
   Z.eqb (fst (fst a)) (fst (fst b)) && val_eqb (snd (fst a)) (snd (fst b)) && optlvl_eqb (snd a) (snd b).
 
 Record cstep := {
-  q_lvl : lvl;
-  q_kw : list (col * val);
+  q_op : cop;                               (* a creation, or an update of a held chain instance *)
   q_out : coutcome;
   q_tr : list (ev lvl);
   q_a : list crow; q_b : list crow; q_c : list crow
@@ -108,7 +107,7 @@ Fixpoint agree_chain (t : tabs) (s : chstate) (steps : list cstep) : bool :=
   match steps with
   | [] => true
   | q :: r =>
-      let x := chain_create t (q_lvl q) (q_kw q) s in
+      let x := chain_step t s (q_op q) in
       let s' := fst (fst x) in
       coutcome_eqb (snd (fst x)) (q_out q)
       && list_eqb (ev_eqb lvl_eqb) (snd x) (q_tr q)
